@@ -73,9 +73,9 @@ CLAIMED = {
         note="SPARQL terms are IRIs, plain strings and small integers under a fixed predicate schema; property paths, sub-queries, GRAPH, other aggregates and CONSTRUCT / ASK are not generated."),
     "C20": dict(
         engine="conc", category="model_checking", design_ref="DESIGN.md §7 C20",
-        technique="TLA+ specs RdfConc / TxConc / BufMgr (one action per critical section) model-checked by TLC over all interleavings; real threads run under a yield-point controller (cfg grafeo_verif) with enumerated, random and TLC-counterexample schedules; recorded schedules validated against the specs by TLC",
-        text="TLC explores every interleaving of 2-3 threads x 2-4 operations at critical-section granularity (index/primary agreement and linearizability of the triple store, first-committer-wins and dense unique commit epochs of the transaction manager, hard limit and zero-at-end of the memory manager) and finds the counterexample schedules of the as-is switches; the same programs run on real threads under the controller, and every recorded schedule with its return values and quiescent projection is validated against the spec.",
-        note="Granularity = yield points between critical sections; sequential consistency assumed. LpgStore lock sequences, catalog, query cache and HNSW are not modelled yet (sub-claims uncovered)."),
+        technique="TLA+ specs RdfConc / TxConc / BufMgr / LpgConc (one action per critical section) and LpgLocks (one action per lock acquisition) model-checked by TLC over all interleavings; real threads run under a yield-point controller (cfg grafeo_verif) with enumerated, random and TLC-counterexample schedules; recorded schedules validated against the specs by TLC; free-running threads (commit rounds, begin/commit/gc loops, LpgStore program rounds) judged by FcwHistory.tla / LpgConc LinObs; looping mutator pairs under a watchdog for deadlocks",
+        text="TLC explores every interleaving of 2-3 threads x 2-4 operations at critical-section granularity (index/primary agreement and linearizability of the triple store, first-committer-wins and dense unique commit epochs of the transaction manager, hard limit and zero-at-end of the memory manager, linearizability / unique ids / index agreement of the property-graph store mutators, deadlock freedom of their lock scopes) and finds the counterexample schedules of the as-is switches; the same programs run on real threads under the controller, and every recorded schedule with its return values and quiescent projection is validated against the spec.",
+        note="Granularity = yield points between critical sections; sequential consistency assumed. Three LpgStore races are known findings (witnessed every run). LpgLocks scopes are hand-transcribed (bound to the code by the looping stress only). Tiered-storage variants, catalog, WAL, query cache, statistics refresh and HNSW are not modelled (sub-claims uncovered)."),
     "C01": dict(
         engine="txn", category="model_checking", design_ref="DESIGN.md §7 C01",
         technique="TLA+ spec Mvcc.tla (as-is MVCC mechanism + ideal snapshot views) explored by TLC; TLC-generated behaviours replayed through real sessions; recorded histories validated by TLC with every read kind of every session after every step",
@@ -124,7 +124,7 @@ ENGINES = [
     dict(name="store", path="spec/store", serves_properties=["C13", "C14"],
          kind_free_text="TLA+ RdfStore.tla / MC_RdfIndex.tla / SparqlSem.tla / LpgStore.tla / MC_LpgIndex.tla / Adjacency.tla (+Trace_*) checked by TLC; harness `gv rdf`, `gv sparql`, `gv lpg`, `gv adj`"),
     dict(name="conc", path="spec/conc", serves_properties=["C20", "C03"],
-         kind_free_text="TLA+ per-critical-section models checked by TLC; harness `gv conc` (yield-point controller, schedule enumeration) and `gv txstress`"),
+         kind_free_text="TLA+ per-critical-section models checked by TLC; harness `gv conc` (yield-point controller, schedule enumeration), `gv txstress` and `gv lpgstress`"),
     dict(name="wal", path="spec/wal", serves_properties=["C05", "C06"],
          kind_free_text="TLA+ Wal.tla (+Trace_Wal) checked by TLC; Rust harness `gv wal` drives a persistent GrafeoDB, reads the cfg(grafeo_verif) WAL hook, builds crash images"),
     dict(name="txn", path="spec/txn", serves_properties=["C01", "C02", "C03", "C04", "C07"],
